@@ -943,3 +943,101 @@ Proof.
   - split; [apply in_map_iff; exists p; split; [rewrite Hok; reflexivity|exact Hin]|]. split; [reflexivity|].
     intros q o Hq Hr. apply in_map_iff in Hq as (q' & E & Hq'). injection E as <- <-. apply Hhi; assumption.
 Qed.
+
+Section Liveness.
+Open Scope nat_scope.
+
+(* ------------------------------------------------------------------ every run can be completed *)
+
+Definition wmeasure (os : list outcome) (s : pst) (w : nat) : nat :=
+  match nth_error (ws s) w with
+  | Some Idle => 2 * (length os - nxt s) + 1
+  | Some (Busy _) => 2 * (length os - nxt s) + 2
+  | _ => 0
+  end.
+
+Lemma pstep_other os s w w' : w <> w' -> nth_error (ws (pstep os s w)) w' = nth_error (ws s) w'.
+Proof.
+  intros N. unfold pstep. destruct (nth_error (ws s) w) as [[|i|]|]; try reflexivity.
+  - destruct (_ <? _); simpl; apply nth_error_upd_other, N.
+  - destruct (nth i os OErr); try destruct (idx_gt i (idx s)); simpl; apply nth_error_upd_other, N.
+Qed.
+
+Lemma pstep_dead_stays os s w w' : nth_error (ws s) w' = Some Dead -> nth_error (ws (pstep os s w)) w' = Some Dead.
+Proof.
+  intros H. destruct (Nat.eq_dec w w') as [<-|N]; [|rewrite pstep_other; assumption].
+  unfold pstep. rewrite H. exact H.
+Qed.
+
+Lemma pstep_nxt os s w : nxt s <= length os -> nxt (pstep os s w) <= length os.
+Proof.
+  intros H. unfold pstep. destruct (nth_error (ws s) w) as [[|i|]|]; try exact H.
+  - destruct (Nat.ltb_spec (nxt s) (length os)); simpl; lia.
+  - destruct (nth i os OErr); try destruct (idx_gt i (idx s)); simpl; exact H.
+Qed.
+
+Lemma pstep_measure os s w : nxt s <= length os ->
+  nth_error (ws s) w <> Some Dead -> w < length (ws s) -> wmeasure os (pstep os s w) w < wmeasure os s w.
+Proof.
+  intros Hn Hd Hw. unfold wmeasure, pstep.
+  destruct (nth_error (ws s) w) as [[|i|]|] eqn:E; try congruence.
+  - destruct (Nat.ltb_spec (nxt s) (length os)); simpl; rewrite nth_error_upd_same by exact Hw; lia.
+  - destruct (nth i os OErr); try destruct (idx_gt i (idx s)); simpl; rewrite nth_error_upd_same by exact Hw; lia.
+  - apply nth_error_None in E. lia.
+Qed.
+
+Lemma worker_dies os w : forall k s, nxt s <= length os -> w < length (ws s) -> wmeasure os s w <= k ->
+  nth_error (ws (fold_left (pstep os) (repeat w k) s)) w = Some Dead.
+Proof.
+  induction k as [|k IH]; intros s Hn Hw Hm; simpl.
+  - unfold wmeasure in Hm. destruct (nth_error (ws s) w) as [[|i|]|] eqn:E; try lia; [reflexivity|].
+    apply nth_error_None in E. lia.
+  - destruct (nth_error (ws s) w) as [x|] eqn:E; [|apply nth_error_None in E; lia].
+    assert (D : {x = Dead} + {x <> Dead}) by (destruct x; [right|right|left]; congruence).
+    apply IH; [apply pstep_nxt, Hn|rewrite pstep_len; exact Hw|].
+    destruct D as [->|D].
+    + unfold wmeasure. rewrite (pstep_dead_stays os s w w E). lia.
+    + pose proof (pstep_measure os s w Hn ltac:(congruence) Hw). lia.
+Qed.
+
+Lemma fold_dead_stays os sched : forall s w', nth_error (ws s) w' = Some Dead ->
+  nth_error (ws (fold_left (pstep os) sched s)) w' = Some Dead.
+Proof. induction sched as [|w t IH]; intros s w' H; simpl; [exact H|]. apply IH, pstep_dead_stays, H. Qed.
+
+Lemma fold_nxt os sched : forall s, nxt s <= length os -> nxt (fold_left (pstep os) sched s) <= length os.
+Proof. induction sched as [|w t IH]; intros s H; simpl; [exact H|]. apply IH, pstep_nxt, H. Qed.
+
+Lemma fold_len os sched : forall s, length (ws (fold_left (pstep os) sched s)) = length (ws s).
+Proof. induction sched as [|w t IH]; intros s; simpl; [reflexivity|]. rewrite IH. apply pstep_len. Qed.
+
+(* run worker 0 to the end, then worker 1, ... *)
+Fixpoint drain (k : nat) (j : nat) : list nat :=
+  match j with O => [] | S j' => drain k j' ++ repeat j' k end.
+
+Lemma wmeasure_bound os s w : wmeasure os s w <= 2 * length os + 2.
+Proof. unfold wmeasure. destruct (nth_error (ws s) w) as [[|i|]|]; lia. Qed.
+
+Lemma drain_kills os s j : nxt s <= length os -> j <= length (ws s) ->
+  forall w, w < j -> nth_error (ws (fold_left (pstep os) (drain (2 * length os + 2) j) s)) w = Some Dead.
+Proof.
+  intros Hn. induction j as [|j IH]; intros Hj w Hw; [lia|]. simpl. rewrite fold_left_app.
+  set (s' := fold_left (pstep os) (drain (2 * length os + 2) j) s).
+  destruct (Nat.eq_dec w j) as [->|N].
+  - apply worker_dies; [apply fold_nxt, Hn|unfold s'; rewrite fold_len; lia|apply wmeasure_bound].
+  - apply fold_dead_stays. apply IH; lia.
+Qed.
+
+Lemma all_dead_quiescent s : (forall w, w < length (ws s) -> nth_error (ws s) w = Some Dead) -> quiescent s = true.
+Proof.
+  unfold quiescent. intros H. apply forallb_forall. intros x Hx. apply In_nth_error in Hx as [w Hw].
+  assert (L : w < length (ws s)) by (apply nth_error_Some; congruence). rewrite (H w L) in Hw. injection Hw as <-. reflexivity.
+Qed.
+
+(* the hypothesis of parallel_lowest_index_wins is satisfiable for every input and worker count *)
+Lemma parallel_run_completes_l os workers : exists sched, quiescent (prun os workers sched) = true.
+Proof.
+  exists (drain (2 * length os + 2) (Nat.min workers (length os))). apply all_dead_quiescent.
+  intros w Hw. unfold prun in *. rewrite fold_len in Hw. simpl in Hw. rewrite repeat_length in Hw.
+  apply drain_kills; simpl; [lia|rewrite repeat_length; lia|exact Hw].
+Qed.
+End Liveness.
